@@ -148,9 +148,9 @@ Section DTLZ.
     unfold DTLZ3_eval, dtlz3_ref. g_norm. fold (dtlz_g13 x M). loop_to_map.
     unfold dtlz_sph. split_first_objective i; same_big_prod; real_eq.
   Qed.
-  Lemma dtlz4_gen_eq_ref : DTLZ4_eval Mz nz x = dtlz4_ref M x.
+  Lemma dtlz4_gen_eq_ref : forall alpha, DTLZ4_eval Mz nz alpha x = dtlz4_ref M alpha x.
   Proof.
-    unfold DTLZ4_eval, dtlz4_ref. g_norm. fold (dtlz_g24 x M). loop_to_map.
+    intros alpha. unfold DTLZ4_eval, dtlz4_ref. g_norm. fold (dtlz_g24 x M). loop_to_map.
     unfold dtlz_sph. split_first_objective i; same_big_prod; real_eq.
   Qed.
   Lemma dtlz1_gen_eq_ref : DTLZ1_eval Mz nz x = dtlz1_ref M x.
@@ -167,8 +167,8 @@ Section DTLZ.
   Proof. rewrite dtlz2_gen_eq_ref. apply ref_len2. Qed.
   Lemma dtlz3_out_length : length (DTLZ3_eval Mz nz x) = M.
   Proof. rewrite dtlz3_gen_eq_ref. unfold dtlz3_ref. now rewrite map_length, seq_length. Qed.
-  Lemma dtlz4_out_length : length (DTLZ4_eval Mz nz x) = M.
-  Proof. rewrite dtlz4_gen_eq_ref. unfold dtlz4_ref. now rewrite map_length, seq_length. Qed.
+  Lemma dtlz4_out_length : forall alpha, length (DTLZ4_eval Mz nz alpha x) = M.
+  Proof. intros alpha. rewrite dtlz4_gen_eq_ref. unfold dtlz4_ref. now rewrite map_length, seq_length. Qed.
 
   (* ---- the identities and the lower bounds *)
   Lemma dtlz1_sum_identity : sum_of (DTLZ1_eval Mz nz x) = (1 + dtlz_g13 x M) / 2.
@@ -188,16 +188,16 @@ Section DTLZ.
   Proof. rewrite dtlz2_gen_eq_ref. apply sph_identity. Qed.
   Lemma dtlz3_sumsq_identity : sumsq_of (DTLZ3_eval Mz nz x) = (1 + dtlz_g13 x M) ^ 2.
   Proof. rewrite dtlz3_gen_eq_ref. apply sph_identity. Qed.
-  Lemma dtlz4_sumsq_identity : sumsq_of (DTLZ4_eval Mz nz x) = (1 + dtlz_g24 x M) ^ 2.
-  Proof. rewrite dtlz4_gen_eq_ref. apply sph_identity. Qed.
+  Lemma dtlz4_sumsq_identity : forall alpha, sumsq_of (DTLZ4_eval Mz nz alpha x) = (1 + dtlz_g24 x M) ^ 2.
+  Proof. intros alpha. rewrite dtlz4_gen_eq_ref. apply sph_identity. Qed.
 
   Lemma sq_ge_1 : forall g, 0 <= g -> 1 <= (1 + g) ^ 2. Proof. intros g Hg. nra. Qed.
   Lemma dtlz2_lower : 1 <= sumsq_of (DTLZ2_eval Mz nz x).
   Proof. rewrite dtlz2_sumsq_identity. apply sq_ge_1, g24_nonneg. Qed.
   Lemma dtlz3_lower : 1 <= sumsq_of (DTLZ3_eval Mz nz x).
   Proof. rewrite dtlz3_sumsq_identity. apply sq_ge_1, g13_nonneg. Qed.
-  Lemma dtlz4_lower : 1 <= sumsq_of (DTLZ4_eval Mz nz x).
-  Proof. rewrite dtlz4_sumsq_identity. apply sq_ge_1, g24_nonneg. Qed.
+  Lemma dtlz4_lower : forall alpha, 1 <= sumsq_of (DTLZ4_eval Mz nz alpha x).
+  Proof. intros alpha. rewrite dtlz4_sumsq_identity. apply sq_ge_1, g24_nonneg. Qed.
 
   (* ---- the samplers' construction: distance variables at 1/2 give g = 0, i.e. the front equation with equality *)
   Definition tail_at_half : Prop := forall j, (j < dtlz_k x M)%nat -> X x (M - 1 + j) = 1 / 2.
@@ -221,8 +221,8 @@ Section DTLZ.
   Proof. intros H. rewrite dtlz2_sumsq_identity, g24_zero by assumption. ring. Qed.
   Lemma dtlz3_sampler_on_front : tail_at_half -> sumsq_of (DTLZ3_eval Mz nz x) = 1.
   Proof. intros H. rewrite dtlz3_sumsq_identity, g13_zero by assumption. ring. Qed.
-  Lemma dtlz4_sampler_on_front : tail_at_half -> sumsq_of (DTLZ4_eval Mz nz x) = 1.
-  Proof. intros H. rewrite dtlz4_sumsq_identity, g24_zero by assumption. ring. Qed.
+  Lemma dtlz4_sampler_on_front : forall alpha, tail_at_half -> sumsq_of (DTLZ4_eval Mz nz alpha x) = 1.
+  Proof. intros alpha H. rewrite dtlz4_sumsq_identity, g24_zero by assumption. ring. Qed.
 
   (* ---- no Python exception (index errors are the only possible ones in DTLZ1-4) *)
   Ltac dtlz_defined :=
@@ -234,7 +234,21 @@ Section DTLZ.
   Lemma dtlz1_defined : DTLZ1_defined Mz nz x. Proof. unfold DTLZ1_defined. dtlz_defined. Qed.
   Lemma dtlz2_defined : DTLZ2_defined Mz nz x. Proof. unfold DTLZ2_defined. dtlz_defined. Qed.
   Lemma dtlz3_defined : DTLZ3_defined Mz nz x. Proof. unfold DTLZ3_defined. dtlz_defined. Qed.
-  Lemma dtlz4_defined : DTLZ4_defined Mz nz x. Proof. unfold DTLZ4_defined. dtlz_defined. Qed.
+  (* DTLZ4 additionally takes x^alpha: defined for x in [0,1] and alpha >= 0 *)
+  Lemma dtlz4_defined : forall alpha, 0 <= alpha -> in01 x -> DTLZ4_defined Mz nz alpha x.
+  Proof.
+    intros alpha Ha Hx.
+    assert (RP : forall v, 0 <= v <= 1 -> rpow_ok v alpha).
+    { intros v [[P|Z] _]; unfold rpow_ok; [now left|right; split; [now symmetry|exact Ha]]. }
+    unfold DTLZ4_defined. cbv zeta. split.
+    - apply Forall_forall; intros i Hi; apply in_zrange in Hi. split; [|split].
+      + unfold idx_ok, zlen; rewrite py_repeat_length; lia.
+      + apply Forall_forall. intros v Hv. apply RP. unfold in01 in Hx. rewrite Forall_forall in Hx. apply Hx.
+        unfold py_upto in Hv. rewrite <- (firstn_skipn (norm_idx (length x) (Mz - i - 1)) x). apply in_or_app. now left.
+      + destruct (Z.ltb_spec 0 i); [|exact I]. split; [unfold idx_ok, zlen; rewrite Hl; lia|].
+        apply RP. unfold py_nth. apply in01_nth, Hx.
+    - rewrite loop_upd_nat by (rewrite py_repeat_length; lia); unfold zlen; now rewrite map_length, seq_length.
+  Qed.
 End DTLZ.
 
 (* ------------------------------------------------------------------ DTLZ7 (needs k = n - M + 1 >= 1) *)
